@@ -37,6 +37,7 @@ def run(run):
         level="proof",
         rule="(a) rune strings over-weighting quotes, backslashes, escape letters, control runes, CR/LF, NUL, non-ASCII pool runes and invalid UTF-8 through all six escape functions and the real Scanner (4 modes), "
              "plus a scanner dictionary of operators, comment openers, numbers at the int64 / float64 range edges, variables, placeholders, URLs, constants, external commands; "
+             "every text is first run through Scanner.Scan / parser.Parse / String() in child processes (re-exec of the stream binary, chunks of 1500, per-input deadline, heap limit, RLIMIT_AS): an input a child does not finish is confirmed alone and reported as law parser_does_not_terminate; the corpus (harness/cmd/c18/corpus.txt: one witness per known finding, one per repaired defect, external-command statements with open quotes / ${ at end of input) runs first on every seed; "
              "(b) parser.Parse under recover on SQL from parser_test.go and docs code blocks, token-level mutations (delete/duplicate/swap/inject/replace/truncate/splice/byte damage) and generated queries, all four modes; "
              "(c) String() -> Parse -> String() fixpoint for every text that parses to one query expression, evaluation agreement for generated constant queries; "
              "non-trivial = distinct (mode, token-kind sequence, outcome / statement types) or (rune classes, length band) or unary tree shape",
